@@ -1,7 +1,9 @@
 #!/bin/bash
-# usage: try_seed.sh <seed-name> <Cxx> [tier]  — apply a seeded change to /repo, run the check, revert.
+# usage: try_seed.sh <seed-name> <Cxx> [tier] [lines] — apply a seeded change to /repo, run the check, revert.
+# The evidence and replay files written by the seeded run are discarded afterwards (they describe a broken tree).
 S=/verif/seeded/$1; ID=$2; TIER=${3:-quick}
 cd /repo && git apply $S/patch.diff || { echo APPLY FAILED; exit 9; }
 cd /verif && ./check $ID --tier $TIER | cut -c1-400 | head -${4:-8}; RC=${PIPESTATUS[0]}
-cd /repo && git checkout -- . 
+cd /repo && git checkout -- .
+cd /verif && git checkout -- evidence/$ID.json replays 2>/dev/null; git clean -fdq replays
 echo "exit=$RC"
